@@ -31,7 +31,7 @@ PROPS['C27'] = dict(bin='c27', level='fault_enumeration', secs=(20, 300), runs=(
     level_text='fault enumeration: for each sampled operation sequence every crash point is executed; after each the reopened store is checked for durability of acknowledged stores, absence of foreign bytes, the control record, and exact behaviour of further stores',
     level_note='trusted: simfs semantics, the reference model, the kernel; operation sequences are sampled, crash points per sequence are exhaustive')
 
-HOOK_COMMITS = ['63ed43e', 'b55c4fd']
+HOOK_COMMITS = ['63ed43e', 'b55c4fd', '731efac']
 
 _PURE = 'pure function of its input: no schedule, clock, I/O, fault or crash point can change the result; deciding it means generating inputs, which is not deterministic simulation'
 NOT_APPLICABLE = {
